@@ -56,6 +56,8 @@ struct Inner {
     slots: HashMap<String, Slot>,
     log: Vec<Event>,
     chan_names: HashMap<usize, String>,
+    /// capacity each named channel was created with
+    chan_caps: HashMap<String, i64>,
     chan_hint: HashMap<ThreadId, String>,
     stores: HashMap<usize, String>, // store id -> prefix ("" for the first store, "B." for the second)
     store_hint: HashMap<ThreadId, String>,
@@ -98,6 +100,7 @@ impl Inner {
             slots: HashMap::new(),
             log: Vec::new(),
             chan_names: HashMap::new(),
+            chan_caps: HashMap::new(),
             chan_hint: HashMap::new(),
             stores: HashMap::new(),
             store_hint: HashMap::new(),
@@ -182,6 +185,11 @@ impl Sched {
             .unwrap_or_else(|| "?".to_string())
     }
 
+    /// the capacity the channel of this name was created with
+    pub fn chan_cap(&self, name: &str) -> Option<i64> {
+        self.inner.lock().unwrap().chan_caps.get(name).cloned()
+    }
+
     /// the next channel created by this thread gets this name
     pub fn hint_chan(&self, name: &str) {
         let mut g = self.inner.lock().unwrap();
@@ -249,6 +257,7 @@ impl Sched {
                     .chan_hint
                     .remove(&tid)
                     .unwrap_or_else(|| format!("{}D", prefix));
+                g.chan_caps.insert(name.clone(), n);
                 g.chan_names.insert(obj, name);
                 return;
             }
